@@ -25,6 +25,7 @@ type Violation struct {
 	Harness string            `json:"harness"`
 	Inputs  []InputVal        `json:"inputs"`
 	Params  map[string]int    `json:"params"`
+	PBytes  map[string][]byte `json:"pbytes,omitempty"`
 	Observe map[string]string `json:"observe,omitempty"`
 	Detail  string            `json:"detail,omitempty"`
 }
@@ -56,6 +57,7 @@ type Run struct {
 	Env       *Env
 	Harness   string // "pkgpath.FuncName"
 	Params    map[string]int
+	PBytes    map[string][]byte // byte-string parameters (automaton prefixes)
 	Fuel      int64
 	MaxPaths  int
 	Workers   int
@@ -88,6 +90,7 @@ type Run struct {
 	DiffSamples []DiffSample
 	PassModels [][]InputVal // sample of passing paths for native cross-replay
 	PassObs    []map[string]string
+	PassPBytes []map[string][]byte // aligned with PassModels when the run aggregates several parameterisations
 }
 
 func (r *Run) fn() *ssa.Function {
@@ -295,7 +298,7 @@ func (ex *Exec) inputValues(w Witness) []InputVal {
 }
 
 func (ex *Exec) violation(label, detail string, w Witness) {
-	v := Violation{Label: label, Harness: ex.run.Harness, Inputs: ex.inputValues(w), Params: ex.run.Params, Detail: detail}
+	v := Violation{Label: label, Harness: ex.run.Harness, Inputs: ex.inputValues(w), Params: ex.run.Params, PBytes: ex.run.PBytes, Detail: detail}
 	if len(ex.obs) > 0 {
 		v.Observe = ex.renderObs(w)
 	}
